@@ -518,6 +518,49 @@ class Project:
                     started.append(parts[1])
         return p.returncode, so.decode('utf-8', 'replace'), se.decode('utf-8', 'replace'), started, timed_out
 
+    def run_pair(self, argvs, cwds, extras, offset, timeout=60):
+        """two top-level commands at (nearly) the same time: the second is started `offset` seconds after the first
+        (offset < 0: the second one first).  Returns [(rc, stderr, started, timed_out)] in the order of argvs."""
+        self.cmdno += 2
+        logs = [self.vtlog + '.%d' % k for k in (1, 2)]
+        for lf in logs:
+            try:
+                os.unlink(lf)
+            except FileNotFoundError:
+                pass
+        order = [0, 1] if offset >= 0 else [1, 0]
+        procs = [None, None]
+        for n, k in enumerate(order):
+            if n == 1:
+                time.sleep(abs(offset))
+            env = self.env(dict(extras[k] or {}, VT_LOG=logs[k]))
+            procs[k] = subprocess.Popen(argvs[k], cwd=os.path.join(self.dir, cwds[k]) if cwds[k] else self.dir, env=env,
+                                        stdin=subprocess.DEVNULL, stdout=subprocess.PIPE, stderr=subprocess.PIPE,
+                                        start_new_session=True)
+        out = [None, None]
+        t_end = time.time() + timeout
+        for k in (0, 1):
+            to = False
+            try:
+                so, se = procs[k].communicate(timeout=max(0.1, t_end - time.time()))
+            except subprocess.TimeoutExpired:
+                to = True
+                for q in procs:
+                    try:
+                        os.killpg(q.pid, 9)
+                    except ProcessLookupError:
+                        pass
+                so, se = procs[k].communicate()
+            out[k] = [procs[k].returncode, se.decode('utf-8', 'replace'), [], to]
+        for k in (0, 1):
+            self.wait_quiet(procs[k].pid)
+            if os.path.exists(logs[k]):
+                for line in open(logs[k]):
+                    parts = line.split()
+                    if parts and parts[0] == 'start':
+                        out[k][2].append(parts[1])
+        return out
+
     def wait_quiet(self, pgid, limit=20.0):
         """wait until no process of the command's session is left (orphaned scripts)"""
         t0 = time.time()
@@ -666,6 +709,9 @@ def step_input(step):
         return ('crash', step['kind'], tuple(step['targs']), bool(step['keep']), step.get('j', 1))
     if a == 'query':
         return ('query', step['kind']) + ((('cwd', step['cwd']),) if step.get('cwd') else ())
+    if a == 'par':
+        return ('par',) + tuple((c['kind'], tuple(c['targs']), bool(c['keep']), c.get('j', 1), c.get('cwd', ''))
+                                for c in (step['c1'], step['c2']))
     return (a, step['n'], step.get('v'))
 
 
@@ -832,6 +878,51 @@ def replay_group(prog, alts, root, bindir, trace=None, log_mode=None, jflag=None
                     best = diffs
             entry.update({'argv': argv, 'rc': rc, 'started': started, 'stderr': se[-2000:],
                           'alternatives': len(live)})
+            if not nxt:
+                entry['diffs'] = best
+                report.append(entry)
+                return False, report
+            live = nxt
+        elif a == 'par':
+            # two commands started together: whatever the real interleaving was, the pair of outcomes and the state left
+            # behind must be those of one specification behaviour
+            argvs, cwds, extras = [], [], []
+            for c in (step['c1'], step['c2']):
+                argv = ['redo-ifchange' if c['kind'] == 'ifchange' else 'redo']
+                if c['keep'] and c['kind'] == 'redo':
+                    argv.append('-k')
+                if c.get('j', 1) > 1 and c['kind'] == 'redo':
+                    argv.append('-j%d' % c['j'])
+                argvs.append(argv + list(c['targs']))
+                cwds.append(c.get('cwd', ''))
+                extras.append({'REDO_KEEP_GOING': '1'} if c['keep'] else {})
+            offs = [0.0, 0.004, -0.004, 0.02, -0.02, 0.06, -0.06, 0.15, -0.15, 0.001, -0.001]
+            offset = offs[(kill_seed + i) % len(offs)]
+            res = pj.run_pair(argvs, cwds, extras, offset, timeout=cmd_timeout)
+            snap = pj.snapshot()
+            common_diffs = []
+            for k in (0, 1):
+                if res[k][3]:
+                    common_diffs.append('command %d did not terminate within %ds' % (k + 1, cmd_timeout))
+                if 'panicked' in res[k][1]:
+                    common_diffs.append('panic: ' + res[k][1][res[k][1].find('panicked'):][:300])
+            best = None
+            nxt = []
+            for h in live:
+                st = h[i]
+                diffs = list(common_diffs)
+                for k, key in ((0, 'c1'), (1, 'c2')):
+                    if res[k][0] != st[key]['rc'] and want_cat('rc'):
+                        diffs.append('exit status of command %d: have %s, spec says %s' % (k + 1, res[k][0], st[key]['rc']))
+                    if sorted(res[k][2]) != sorted(st[key]['ran']) and want_cat('ran'):
+                        diffs.append('scripts run by command %d: have %s, spec says %s' % (k + 1, res[k][2], list(st[key]['ran'])))
+                diffs += [txt for (cat, txt) in pj.compare(snap, st['snap']) if want_cat(cat)]
+                if not diffs:
+                    nxt.append(h)
+                elif best is None or len(diffs) < len(best):
+                    best = diffs
+            entry.update({'argv': argvs, 'offset_s': offset, 'rc': [res[0][0], res[1][0]], 'started': [res[0][2], res[1][2]],
+                          'stderr': [res[0][1][-1500:], res[1][1][-1500:]], 'alternatives': len(live)})
             if not nxt:
                 entry['diffs'] = best
                 report.append(entry)
